@@ -219,7 +219,7 @@ def _scan(ctx, fut, delim_term, kind):
             d2 = BufLoc(ex, st, fut.args[-1])
             d2.set(d2.val.concat(strm.inp.slice(strm.pos, rem, d2.val.kind), d2.val.kind))
             ex.store(st, loc[0], loc[1], strm.replace(pos=strm.inp.len))
-            st.trace.append(('eof', strm.name))
+            st.trace.append(('eof', strm.name, rem))
             outs.append((st, mk_result(ex, ok=Int(rem, 64, False))))
     except PathDead:
         pass
@@ -391,6 +391,64 @@ def ipv4(t32):
 
 def ipv6(b16):
     return Agg('Ipv6Addr', {0: b16})
+
+
+@contract(r'^core::str::<impl str>::parse::<(?:std::net::)?Ipv4Addr>$|^<(?:std::net::)?Ipv4Addr as (?:std::str::)?FromStr>::from_str$')
+def ipv4_from_str(ctx):
+    """"a.b.c.d".parse::<Ipv4Addr>(), exactly as std does it: four decimal fields of 1..3 digits separated by single dots, no
+    sign, no blanks, no leading zero in a field of more than one digit, each field <= 255; anything else is an error.
+    Decided on the bytes of the string (symbolic or not), for strings of any length (longer than 15 bytes is an error)."""
+    ex, st = ctx.ex, ctx.st
+    b = ex.deref(st, ctx.args[0]) if isinstance(ctx.args[0], Ref) else ctx.args[0]
+    if not isinstance(b, Bytes):
+        return NotImplemented
+    err = mk_result(ex, err=Opaque('AddrParseError', 'ipv4'))
+    n = b.len
+    fits = simp(z3.And(z3.UGE(n, BV(7, 64)), z3.ULE(n, BV(15, 64))))
+    dots = BV(0, 64)
+    for i in range(15):
+        dots = dots + z3.If(z3.And(z3.ULT(BV(i, 64), n), b.at(i) == BV(0x2e, 8)), BV(1, 64), BV(0, 64))
+    shape = simp(z3.And(fits, dots == BV(3, 64)))
+    t, f = ex.branch(st, shape)
+    outs = []
+    if t:
+        s2 = st.fork() if f else st
+        ex.assume(s2, shape)
+        d = [z3.BitVec(fresh_name('dot'), 64) for _ in range(3)]
+        # the three dots, in order (unique given that there are exactly three)
+        ex.assume(s2, z3.And(z3.ULT(d[0], d[1]), z3.ULT(d[1], d[2]), z3.ULT(d[2], n), *[b.at(x) == BV(0x2e, 8) for x in d]))
+        bounds = [(BV(0, 64), d[0]), (d[0] + 1, d[1]), (d[1] + 1, d[2]), (d[2] + 1, n)]
+        valid, octs = [], []
+        for a, e in bounds:
+            ln = simp(e - a)
+            c = [z3.ZeroExt(8, b.at(simp(a + j))) for j in range(3)]
+
+            def dig(x):
+                return z3.And(z3.UGE(x, BV(0x30, 16)), z3.ULE(x, BV(0x39, 16)))
+            v1 = c[0] - 0x30
+            v2 = (c[0] - 0x30) * 10 + (c[1] - 0x30)
+            v3 = (c[0] - 0x30) * 100 + (c[1] - 0x30) * 10 + (c[2] - 0x30)
+            ok = z3.Or(z3.And(ln == BV(1, 64), dig(c[0])),
+                       z3.And(ln == BV(2, 64), dig(c[0]), dig(c[1]), c[0] != BV(0x30, 16)),
+                       z3.And(ln == BV(3, 64), dig(c[0]), dig(c[1]), dig(c[2]), c[0] != BV(0x30, 16), z3.ULE(v3, BV(255, 16))))
+            valid.append(ok)
+            val = z3.If(ln == BV(1, 64), v1, z3.If(ln == BV(2, 64), v2, v3))
+            octs.append(z3.Extract(7, 0, val))
+        allok = simp(z3.And(*valid))
+        t2, f2 = ex.branch(s2, allok)
+        if t2:
+            s3 = s2.fork() if f2 else s2
+            ex.assume(s3, allok)
+            outs.append((s3, mk_result(ex, ok=ipv4(simp(z3.Concat(*octs))))))
+        if f2:
+            if t2:
+                ex.assume(s2, z3.Not(allok))
+            outs.append((s2, err))
+    if f:
+        if t:
+            ex.assume(st, z3.Not(shape))
+        outs.append((st, err))
+    return outs
 
 
 @contract(r'^<u32 as Into<(?:std::net::)?Ipv4Addr>>::into$|^<(?:std::net::)?Ipv4Addr as From<u32>>::from$|^(?:std::net::)?Ipv4Addr::from_bits$')
@@ -929,6 +987,14 @@ def _explicit_elems(ctx, itv):
     """element references of an iterator over an explicit list: [(Ref)]"""
     ex, st = ctx.ex, ctx.st
     it = ex.deref1(st, itv) if isinstance(itv, Ref) else itv
+    if isinstance(it, Agg) and it.name == 'slice::Windows':
+        # windows(n) over an explicit list: each element is a sub-slice of n consecutive items
+        src, _loc = seq_loc(ex, st, it.fields[0])
+        n, start = concrete(it.fields[1].t), concrete(it.fields[2].t)
+        if not (isinstance(src, SeqV) and src.items is not None) or not n or start is None:
+            return None
+        return [Ref(st.alloc(SeqV.from_items(src.items[i:i + n], src.elem_ty, 'slice')), ())
+                for i in range(start, len(src.items) - n + 1)]
     if not (isinstance(it, Agg) and it.name == 'slice::Iter'):
         return None
     src, loc = seq_loc(ex, st, it.fields[0])
@@ -1314,6 +1380,20 @@ def option_map_or_else(ctx):
     if r is None:
         return NotImplemented
     return r
+
+
+@contract(r'^core::slice::<impl \[.*\]>::windows$|^core::slice::windows$|^<\[.*\]>::windows$')
+def slice_windows(ctx):
+    """slice.windows(n): iterator over the overlapping sub-slices of length n (panics for n == 0)"""
+    ex, st = ctx.ex, ctx.st
+    n = ctx.args[1]
+    if not isinstance(n, Int):
+        return NotImplemented
+    ex.require(st, n.t != BV(0, 64), 'windows', 'window size must be non-zero')
+    src, _ = seq_loc(ex, st, ctx.args[0])
+    if not (isinstance(src, SeqV) and src.items is not None) or concrete(n.t) is None:
+        return NotImplemented
+    return Agg('slice::Windows', {0: ctx.args[0], 1: n, 2: Int(BV(0, 64), 64, False)})
 
 
 @contract(r' as Iterator>::position::<.*>$')
@@ -2078,6 +2158,62 @@ def io_error_kind(ctx):
         kinds[key] = d
         st.env['io_error_kinds'] = kinds
     return Agg('ErrorKind', {}, kinds[key], {}, vs)
+
+
+@contract(r'^(?:std::option::)?Option::<(?:std::option::)?Option<.*>>::flatten$')
+def option_flatten(ctx):
+    """Option<Option<T>>::flatten: Some(Some(x)) -> Some(x); Some(None) and None -> None"""
+    ex, st = ctx.ex, ctx.st
+    v, _ = to_enum(ex, st, ctx.args[0])
+    d = v.discr
+    is_some = z3.BoolVal(d == 1) if isinstance(d, int) else simp(d == BV(1, 64))
+    t, f = ex.branch(st, is_some)
+    outs = []
+    if t:
+        s2 = st.fork() if f else st
+        ex.assume(s2, is_some)
+        hm = re.match(r'^(?:std::option::)?Option::<(.*)>::flatten$', ctx.callee, re.S)
+        inner = payload(ex, s2, v, 1, 0, hm.group(1).strip() if hm else 'unknown')
+        if isinstance(inner, Ref):
+            inner = ex.deref(s2, inner)
+        if not (isinstance(inner, Agg) and inner.name == 'Option'):
+            return NotImplemented
+        outs.append((s2, inner))
+    if f:
+        if t:
+            ex.assume(st, z3.Not(is_some))
+        outs.append((st, mk_option(ex, None)))
+    return outs
+
+
+@contract(r'^(?:std::option::)?Option::<.*>::or$|^(?:std::option::)?Option::<.*>::xor$|^(?:std::option::)?Option::<.*>::and::<.*>$')
+def option_or_and(ctx):
+    """a.or(b): a if Some else b;  a.and(b): b if a is Some else None;  a.xor(b): the one that is Some if exactly one is"""
+    ex, st = ctx.ex, ctx.st
+    a, _ = to_enum(ex, st, ctx.args[0])
+    b, _ = to_enum(ex, st, ctx.args[1])
+    op = re.search(r'::(or|xor|and)(?:::<.*>)?$', ctx.callee, re.S).group(1)
+
+    def some(v):
+        return z3.BoolVal(v.discr == 1) if isinstance(v.discr, int) else simp(v.discr == BV(1, 64))
+    outs = []
+    sa, sb = some(a), some(b)
+    none = mk_option(ex, None)
+    cases = {'or': [(sa, a), (z3.Not(sa), b)], 'and': [(sa, b), (z3.Not(sa), none)],
+             'xor': [(z3.And(sa, z3.Not(sb)), a), (z3.And(z3.Not(sa), sb), b), (sa == sb, none)]}[op]
+    live = []
+    for c, r in cases:
+        c = simp(c)
+        if z3.is_false(c):
+            continue
+        rt, _ = ex.check(st.pc, [c])
+        if rt != 'unsat':
+            live.append((c, r))
+    for i, (c, r) in enumerate(live):
+        s2 = st.fork() if i < len(live) - 1 else st
+        ex.assume(s2, c)
+        outs.append((s2, r))
+    return outs
 
 
 @contract(r'^(?:std::option::)?Option::<.*>::filter::<.*>$')
